@@ -45,14 +45,20 @@ G, F = M(True), M(False)
 def setup():
   @gin.configurable(module='c04')
   def g(tag='default'):
-    CALLS.append(gin.current_scope())
+    sc = gin.current_scope()
+    CALLS.append(list(sc))
+    sc.append('MUTATED_BY_CALLEE')      # what current_scope() hands out is the caller's to scribble on
+    del sc[:1]
     return ['g', len(CALLS), tag]
 
   @gin.configurable(module='c04')
   def gk(tag='default'):
     """Like g, but returns something hashable (usable as a dict key or in a set-like position)."""
-    CALLS.append(gin.current_scope())
-    return ('gk', '/'.join(gin.current_scope()), tag)
+    sc = gin.current_scope()
+    CALLS.append(list(sc))
+    name = '/'.join(sc)
+    sc.append('MUTATED_BY_CALLEE')
+    return ('gk', name, tag)
 
   @gin.configurable(module='c04')
   def consumer(p=None, q=None):
